@@ -1,10 +1,289 @@
-(* Property C18 - theorems only.  Model: Model/C18_Logbook.v (deap/tools/support.py). *)
-From Coq Require Import List ZArith Bool.
-From DV Require Import Base.PyList Model.C18_Logbook Proofs.C18_Logbook.
+(* Property C18 - theorems only.
+   "Logbook and statistics record every entry once, in order, chapters aligned"
+   Model: Model/C18_Logbook.v (deap/tools/support.py after the three C18 fix commits).
+   All history theorems quantify over EVERY finite operation list h (no length bound); the state
+   reached is [final init_state h], the trace notions (recorded, delivered, headers) are defined in
+   Proofs/C18_Logbook.v.  Hypothesis [uniform S h]: every record of the history feeds the same
+   chapter names S at every level (as MultiStatistics.compile produces). *)
+From Coq Require Import List ZArith Bool Sorting.Sorted.
+From DV Require Import Base.PyList Base.C18_Lists Model.C18_Logbook Proofs.C18_Logbook.
 Import ListNotations.
 Local Open Scope Z_scope.
 
-Theorem C18_compile_applies_all_0 : forall {A B C} (s : stats A B C) data,
-  st_compile s data = map (fun nf => (fst nf, snd nf (map (s_key s) data))) (s_funs s).
-Proof. exact @st_compile_spec. Qed.
-Print Assumptions C18_compile_applies_all_0.
+(* ---- a logbook returns its records in the order they were entered ---- *)
+(* any history, no hypothesis: uids strictly increasing, each stored entry is the scalar part of
+   the dictionary entered by the record() call with that number *)
+Theorem C18_records_in_order : forall h : list op,
+  let l := st_lb (final init_state h) in
+  StronglySorted lt (ids l) /\
+  forall u e, In (u, e) (recs l) ->
+    exists infos, nth_error (recorded h) u = Some infos /\ e = scalars infos.
+Proof. exact records_in_order. Qed.
+Print Assumptions C18_records_in_order.
+
+(* without deletions: all of them, exactly *)
+Theorem C18_records_all_without_delete : forall h : list op,
+  forallb (fun o => negb (is_delete o)) h = true ->
+  recs (st_lb (final init_state h)) =
+  combine (seq 0 (length (recorded h))) (map scalars (recorded h)).
+Proof. exact records_all_without_delete. Qed.
+Print Assumptions C18_records_all_without_delete.
+
+(* ---- select: per name the chronological column, None where a record lacks the name ---- *)
+Theorem C18_select_columns : forall (l : lb) (names : list name),
+  (forall nm, names = [nm] -> lb_select names l = Sel1 (column nm l)) /\
+  (length names <> 1%nat -> lb_select names l = SelN (map (fun nm => column nm l) names)) /\
+  forall nm,
+    length (column nm l) = length (recs l) /\
+    (forall j u e, nth_error (recs l) j = Some (u, e) -> nth_error (column nm l) j = Some (lookup nm e)) /\
+    (forall e : entry, lookup nm e = None <-> ~ In nm (map fst e)).
+Proof.
+  intros l names. split; [intros nm ->; apply select_one|]. split; [apply select_many|].
+  intro nm. destruct (column_spec nm l) as [A B]. repeat split; auto; apply lookup_None.
+Qed.
+Print Assumptions C18_select_columns.
+
+(* ---- chapters: same records as the logbook (hence as many), plus the record's scalar fields ---- *)
+(* after every history, for the chapter (or sub-chapter) at any path *)
+Theorem C18_chapter_aligned : forall S h path c,
+  uniform S h ->
+  find_path path (st_lb (final init_state h)) = Some c ->
+  let l := st_lb (final init_state h) in
+  ids c = ids l /\ length (recs c) = length (recs l) /\
+  (forall u e e', In (u, e) (recs l) -> In (u, e') (recs c) ->
+     forall k z, lookup k e = Some z -> lookup k e' = Some z).
+Proof.
+  intros S h path c U F. destruct (chapter_aligned S h path c U F) as [A B]. repeat split; auto.
+  apply (f_equal (@length _)) in A. unfold ids in A. now rewrite !map_length in A.
+Qed.
+Print Assumptions C18_chapter_aligned.
+
+(* the chapter names are those of S once something was recorded (or the logbook is untouched) *)
+Theorem C18_chapter_names : forall S h,
+  uniform S h ->
+  let l := st_lb (final init_state h) in
+  (recs l = [] /\ chs l = []) \/ shape_eqv (tree_of l) S.
+Proof. exact chapters_shaped. Qed.
+Print Assumptions C18_chapter_names.
+
+(* a dictionary-valued entry goes to the chapter of that name: own scalar fields + the record's *)
+Theorem C18_record_feeds_chapter : forall uid infos l l' k d,
+  NoDup (map fst infos) -> NoDup (map fst d) -> In (k, VDict d) infos ->
+  lb_record (S (ddepth infos)) uid infos l = Some l' ->
+  exists c' e, lookup k (chs l') = Some c' /\
+    recs c' = recs (chapter_of k (chs l)) ++ [(uid, e)] /\
+    forall nm, lookup nm e = match lookup nm (scalars infos) with
+                             | Some z => Some z
+                             | None => match lookup nm d with Some (VInt z) => Some z | _ => None end
+                             end.
+Proof.
+  intros uid infos l l' k d ND NDd Hin E.
+  destruct (record_feeds_chapter uid infos l l' k d ND Hin E) as (c' & A & B).
+  exists c', (scalars (dict_update d (inject (scalars infos)))). repeat split; auto.
+  intro nm. apply lookup_chapter_entry; auto. now apply scalars_NoDup.
+Qed.
+Print Assumptions C18_record_feeds_chapter.
+
+(* ---- deleting single entries / popping: exactly the addressed record goes, everywhere ---- *)
+Theorem C18_delete_exact_index : forall S h i,
+  uniform S h ->
+  let s := final init_state h in
+  let l := st_lb s in
+  let n := zlen (recs l) in
+  (- n <= i < n ->
+     exists l' item, py_get (recs l) i = Some item /\
+       step s (ODelItem i) = (mkstate l' (st_next s), ONone) /\
+       step s (OPop (Some i)) = (mkstate l' (st_next s), OItem (fst item) (snd item)) /\
+       recs l' = remove_nth (Z.to_nat (norm_index i n)) (recs l) /\
+       aligned (st_next s) l') /\
+  (~ (- n <= i < n) ->
+     step s (ODelItem i) = (s, OErr IndexError) /\ step s (OPop (Some i)) = (s, OErr IndexError)).
+Proof. exact delete_index_exact. Qed.
+Print Assumptions C18_delete_exact_index.
+
+Theorem C18_pop_default_is_first : forall s, step s (OPop None) = step s (OPop (Some 0)).
+Proof. exact pop_default. Qed.
+Print Assumptions C18_pop_default_is_first.
+
+(* slices: the records at the positions range( *slice.indices(len) ) go, the others stay in order *)
+Theorem C18_delete_exact_slice : forall S h a b st,
+  uniform S h ->
+  let s := final init_state h in
+  let l := st_lb s in
+  (match st with Some 0 => False | _ => True end ->
+     exists l', step s (ODelSlice a b st) = (mkstate l' (st_next s), ONone) /\
+       recs l' = del_positions (slice_idx a b (match st with None => 1 | Some x => x end) (zlen (recs l))) (recs l) /\
+       aligned (st_next s) l') /\
+  (st = Some 0 -> step s (ODelSlice a b st) = (s, OErr ValueError)).
+Proof. exact delete_slice_exact. Qed.
+Print Assumptions C18_delete_exact_slice.
+
+(* what "aligned" gives for the state after a deletion: every chapter at any depth holds the same
+   uids as the logbook *)
+Theorem C18_aligned_means : forall n l path c,
+  aligned n l -> NoDup (ids l) -> find_path path l = Some c -> ids c = ids l.
+Proof. intros n l path c A N F. now destruct (aligned_find_path n path l c A N F) as (_ & E & _). Qed.
+Print Assumptions C18_aligned_means.
+
+(* del_positions keeps exactly the elements at the other positions *)
+Theorem C18_del_positions_spec : forall (ps : list Z) (l : list (nat * entry)) x,
+  In x (del_positions ps l) <-> exists k, nth_error l k = Some x /\ ~ In (Z.of_nat k) ps.
+Proof. intros ps l x. unfold del_positions. rewrite drop_pos_spec. reflexivity. Qed.
+Print Assumptions C18_del_positions_spec.
+
+(* ---- stream: every record exactly once ---- *)
+(* nothing twice, only real records *)
+Theorem C18_stream_once : forall S h,
+  uniform S h ->
+  NoDup (delivered init_state h) /\
+  forall u, In u (delivered init_state h) -> (u < length (recorded h))%nat.
+Proof. exact stream_once. Qed.
+Print Assumptions C18_stream_once.
+
+(* after any stream call every record still in the logbook has been delivered *)
+Theorem C18_stream_complete : forall S h,
+  uniform S h ->
+  forall u, In u (ids (st_lb (final init_state (h ++ [OStream])))) ->
+            In u (delivered init_state (h ++ [OStream])).
+Proof. exact stream_complete. Qed.
+Print Assumptions C18_stream_complete.
+
+(* a call delivers exactly the records behind buffindex, and never raises while records exist *)
+Theorem C18_stream_delivers_pending : forall S h,
+  uniform S h ->
+  let s := final init_state h in
+  (forall d hf, snd (step s OStream) = OText d hf ->
+     d = skipn (Z.to_nat (buff (st_lb s))) (ids (st_lb s)) /\ hf = (buff (st_lb s) =? 0) && logh (st_lb s)) /\
+  (recs (st_lb s) <> [] -> exists d hf, snd (step s OStream) = OText d hf).
+Proof.
+  intros S h U s. split.
+  - intros d hf H. exact (stream_delivers_pending S h d hf U H).
+  - exact (stream_no_loss S h U).
+Qed.
+Print Assumptions C18_stream_delivers_pending.
+
+(* ---- header at most once ----
+   Full statement (what the property text says):
+     forall S h, uniform S h -> headers init_state h <= 1.
+   The faithful model violates it (KNOWN FINDING C18.header_again_after_full_drain): once every
+   streamed record has been deleted buffindex is 0 again and __txt__ takes startindex == 0 as
+   "first line".  The witness below is replayed on the implementation by harness/c18.py on every run. *)
+Definition header_at_most_once : Prop :=
+  forall S h, uniform S h -> (headers init_state h <= 1)%nat.
+
+Definition header_witness : list op :=
+  [ORecord [(0, VInt 0)]; OStream; ODelItem 0; ORecord [(0, VInt 1)]; OStream].
+
+Theorem C18_header_at_most_once_refuted :
+  exists S h, uniform S h /\ headers init_state h = 2%nat.
+Proof.
+  exists (Sh []), header_witness. split; [|vm_compute; reflexivity].
+  intros infos Hin.
+  assert (E : infos = [(0, VInt 0)] \/ infos = [(0, VInt 1)]).
+  { cbn in Hin. destruct Hin as [E|[E|[E|[E|[E|[]]]]]]; try discriminate; injection E as <-; auto. }
+  assert (HS : forall z, has_shape [(0, VInt z)] (Sh [])).
+  { intro z. constructor.
+    - repeat constructor. intros [].
+    - constructor.
+    - intro k. split; [intros []|]. intros (d & [H|[]]). discriminate.
+    - intros k d s [H|[]]. discriminate. }
+  destruct E as [-> | ->]; apply HS.
+Qed.
+Print Assumptions C18_header_at_most_once_refuted.
+
+Corollary C18_header_at_most_once_is_false : ~ header_at_most_once.
+Proof.
+  intro H. destruct C18_header_at_most_once_refuted as (S & h & U & E). specialize (H S h U).
+  rewrite E in H. inversion H as [|? H']. inversion H'.
+Qed.
+Print Assumptions C18_header_at_most_once_is_false.
+
+(* proved part: as long as, at every stream call made after the header went out, at least one
+   already delivered record is still in the logbook (the streamed prefix was never drained
+   completely), the header is delivered at most once *)
+Theorem C18_header_at_most_once_partial : forall S h,
+  uniform S h ->
+  (forall p q, h = p ++ OStream :: q -> (1 <= headers init_state p)%nat ->
+     exists u, In u (delivered init_state p) /\ In u (ids (st_lb (final init_state p)))) ->
+  (headers init_state h <= 1)%nat.
+Proof. exact header_partial. Qed.
+Print Assumptions C18_header_at_most_once_partial.
+
+(* ---- pickling: modelled as the identity on the whole state (records, buffindex, chapters, header,
+   log_header); that the implementation's round trip really is the identity is established by the
+   correspondence run, not by this statement ---- *)
+Theorem C18_pickle_keeps_all : forall s, step s OPickle = (s, ONone).
+Proof. exact pickle_identity. Qed.
+Print Assumptions C18_pickle_keeps_all.
+
+(* ---- statistics ---- *)
+(* compile applies every registered function, with its frozen arguments, to the tuple of key values *)
+Theorem C18_compile_applies_all : forall (A B C Args : Type) (s : stats A B C) (data : list A),
+  st_compile s data = map (fun nf => (fst nf, snd nf (map (s_key s) data))) (s_funs s) /\
+  map fst (st_compile s data) = map fst (s_funs s) /\
+  (forall nm, lookup nm (st_compile s data) =
+              option_map (fun f => f (map (s_key s) data)) (lookup nm (s_funs s))) /\
+  (forall nm (f : Args -> list B -> C) a,
+     lookup nm (st_compile (st_register nm f a s) data) = Some (f a (map (s_key s) data)) /\
+     (forall nm', nm' <> nm ->
+        lookup nm' (st_compile (st_register nm f a s) data) = lookup nm' (st_compile s data)) /\
+     (forall k, In k (map fst (s_funs (st_register nm f a s))) <-> k = nm \/ In k (map fst (s_funs s))) /\
+     (NoDup (map fst (s_funs s)) -> NoDup (map fst (s_funs (st_register nm f a s))))).
+Proof.
+  intros. split; [reflexivity|]. split; [apply compile_names|]. split; [apply compile_lookup|].
+  intros nm f a. split; [apply compile_register_same|]. split; [intros; now apply compile_register_other|].
+  split; [apply register_names|apply register_NoDup].
+Qed.
+Print Assumptions C18_compile_applies_all.
+
+(* multi-statistics: one such record per named statistics object; register reaches every object *)
+Theorem C18_multi_compile_per_name : forall (A B C Args : Type) (m : mstats A B C) (data : list A),
+  map fst (ms_compile m data) = map fst m /\
+  (forall nm, lookup nm (ms_compile m data) = option_map (fun s => st_compile s data) (lookup nm m)) /\
+  (forall nm (f : Args -> list B -> C) a k,
+     lookup k (ms_register nm f a m) = option_map (st_register nm f a) (lookup k m)).
+Proof.
+  intros. split; [apply ms_compile_names|]. split; [apply ms_compile_lookup|]. intros; apply ms_register_lookup.
+Qed.
+Print Assumptions C18_multi_compile_per_name.
+
+(* ---- non-vacuity: a history with two chapters that meets [uniform], with what it produces ---- *)
+Definition ex_shape : shape := Sh [(10, Sh []); (11, Sh [])].
+Definition ex_rec (i : Z) : dict :=
+  [(0, VInt i); (10, VDict [(3, VInt (i + 40))]); (5, VInt (i + 20)); (11, VDict [(3, VInt (i + 60)); (4, VInt 7)])].
+Definition ex_history : list op :=
+  [ORecord (ex_rec 0); ORecord (ex_rec 1); OStream; ORecord (ex_rec 2); OPop (Some (-1)); ODelSlice None None (Some (-2));
+   OStream; OPickle; OSelect [10] [3; 0]].
+
+Example ex_rec_shape i : has_shape (ex_rec i) ex_shape.
+Proof.
+  constructor.
+  - repeat constructor; cbn; intuition discriminate.
+  - repeat constructor; cbn; intuition discriminate.
+  - intro k. cbn. split.
+    + intros [<-|[<-|[]]]; eexists; eauto 6.
+    + intros (d & [H|[H|[H|[H|[]]]]]); try discriminate; injection H as <- _; auto.
+  - intros k d s Hd Hs. cbn in Hs.
+    assert (Es : s = Sh []) by (destruct Hs as [E|[E|[]]]; now injection E as _ <-). subst s.
+    cbn in Hd. destruct Hd as [H|[H|[H|[H|[]]]]]; try discriminate; injection H as _ <-; cbn.
+    + constructor; [repeat constructor; cbn; intuition discriminate|constructor| |].
+      * intro k'. split; [intros []|]. intros (d' & H'). cbn in H'. intuition discriminate.
+      * intros k' d' s' H'. cbn in H'. intuition discriminate.
+    + constructor; [repeat constructor; cbn; intuition discriminate|constructor| |].
+      * intro k'. split; [intros []|]. intros (d' & H'). cbn in H'. intuition discriminate.
+      * intros k' d' s' H'. cbn in H'. intuition discriminate.
+Qed.
+
+Example C18_nonvacuous :
+  uniform ex_shape ex_history /\
+  ids (st_lb (final init_state ex_history)) = [0%nat] /\
+  delivered init_state ex_history = [0%nat; 1%nat] /\
+  headers init_state ex_history = 1%nat /\
+  outs init_state [ORecord (ex_rec 0); OSelect [10] [3; 0]; OSelect [] [5]] =
+    [ONone; OSel (SelN [[Some 40]; [Some 0]]); OSel (Sel1 [Some 20])].
+Proof.
+  split; [|vm_compute; repeat split; reflexivity].
+  intros infos Hin. cbn in Hin.
+  repeat (destruct Hin as [E|Hin]; [try discriminate; injection E as <-; apply ex_rec_shape|]).
+  destruct Hin.
+Qed.
